@@ -90,6 +90,12 @@ Round 3: the interpreter no longer re-raises an exception on behalf of the `with
   with the statements after the block exactly as Python would, so "which exception reaches the outside" and
   "which operations ran afterwards" differ from the plain run and are reported with a replay (C20-r3m3:
   truthy return from __exit__).  The surrogate raised for a propagating library exception has its real type.
+Round 4: the generator emits the SAME operation on the same object 3-4 times in a row (version/op_type/
+  name/type/const setters, resize_inputs/outputs, sort, merge_shapes, append to outputs, attribute set) and
+  loops of short-lived temporaries (`temps`); every repetition has its own window in the oracle's "exactly
+  one entry per completed instrumented operation" check (for `temps`: exactly k init/Value entries), so a
+  record() that de-duplicates consecutive identical entries is reported with a replay (C20-r4m3), also on the
+  search-after-break path, which uses the same generator.
 Modelled, not verified: purity of details_func/repr/getattr inside wrappers (exercised by (i) — and
   this is exactly where the finding below was), weakref/traceback/time, determinism of the originals,
   hooks (user callbacks), threads.
@@ -967,6 +973,11 @@ def do_op(W: World, it: dict):
             W.add("shape", s2)
             v.shape = s2
         return v, None
+    if op == "temps":
+        # a loop creating temporaries that die at once (their addresses are typically reused)
+        for _ in range(it.get("k", 3)):
+            ir.Value(name=it.get("name", "t"))
+        return None, None
     if op == "shape_edit":
         sh = W.sel("shape", it["s"])
         if sh is None or len(sh) == 0:
@@ -1143,6 +1154,13 @@ def run_scenario(scn: list, mode: str, x: dict | None = None) -> dict:
                 win = journals[j].entries[n0:]
                 cnt = sum(1 for e in win if e.operation == opname and e.ref is not None and e.ref() is tgt)
                 if cnt != 1:
+                    obs["oracle_entries"].append({"op": it, "journal": j, "matching_entries": cnt,
+                                                  "window": [(e.operation, e.class_name) for e in win]})
+        if mode == "journal" and err is None and it["op"] == "temps":
+            for j, n0 in wins:
+                win = journals[j].entries[n0:]
+                cnt = sum(1 for e in win if e.operation == "init" and e.class_name == "Value")
+                if cnt != it.get("k", 3):
                     obs["oracle_entries"].append({"op": it, "journal": j, "matching_entries": cnt,
                                                   "window": [(e.operation, e.class_name) for e in win]})
         if err is not None and it.get("prop"):
@@ -1490,6 +1508,26 @@ def gen_scenario(rng, size: int = 24) -> list:
                 items.append({"try": block(rng.randrange(1, 5), depth, active)})
             elif u < 0.23 and depth >= 1:
                 items.append({"throw": rng.choice(["ValueError", "RuntimeError", "KeyError", "TypeError"])})
+            elif u < 0.31:
+                # the SAME operation on the same object several times in a row (identical details strings),
+                # or a loop of temporaries: every repetition is an instrumented operation of its own
+                i = rng.randrange(0, 12)
+                it = rng.choice([
+                    {"op": "n_set", "n": i, "field": "version", "val": 5},
+                    {"op": "n_set", "n": i, "field": "op_type", "val": "Neg"},
+                    {"op": "n_resize_out", "n": i, "k": 1},
+                    {"op": "n_resize_in", "n": i, "k": 2},
+                    {"op": "g_sort", "g": i},
+                    {"op": "set_name", "kind": "value", "i": i, "name": "x"},
+                    {"op": "v_set_type", "v": i, "dt": 1},
+                    {"op": "v_merge_shapes", "v": i, "dims": [2, 3]},
+                    {"op": "v_set_const", "v": i, "none": True},
+                    {"op": "io_append", "g": i, "which": "outputs", "v": i},
+                    {"op": "attr_set", "n": i, "key": "k", "a": i},
+                    {"op": "temps", "k": rng.randrange(2, 5), "name": "t"},
+                ])
+                for _ in range(1 if it["op"] == "temps" else rng.randrange(3, 5)):
+                    items.append(json.loads(json.dumps(it)))
             else:
                 items.append(_gen_op(rng))
         return items
